@@ -115,6 +115,7 @@ PRELUDE = '''use nutype::nutype;
 pub const K: i32 = 5; pub const K8: i8 = 5; pub const UK: usize = 5; pub const KF: f64 = 5.5;
 pub const MAX: i32 = 9; pub const MIN: i32 = -9;
 pub fn f() -> i32 { 7 }
+pub fn lo_fn() -> i32 { 3 } pub fn lo_fn_f() -> f64 { 0.5 }
 pub fn san(x: i32) -> i32 { x ^ 0x55 }
 pub fn san2(x: i32) -> i32 { x.wrapping_add(3) }
 #[derive(Debug, Clone, PartialEq)] pub struct MyErr;
